@@ -6,8 +6,19 @@ vp_log() {
   echo $n > /vp/counter
   echo "$n $*" >> /vp/commands
   if [ "${VP_FAULT_AT:-0}" = "$n" ]; then
+    if [ "${VP_FAULT_LATE:-0}" = "1" ] && { [ "$1" = "job" ] || [ "$1" = "convert" ]; }; then
+      # a LATE failure: the tool does its work (its output file exists, possibly partial) and then dies
+      VP_LATE_FAIL=1
+      return 0
+    fi
     echo "vp: injected failure of step $n ($1)" >&2
     return 1
   fi
   return 0
+}
+vp_late_exit() {
+  if [ -n "$VP_LATE_FAIL" ]; then
+    echo "vp: injected late failure (the output was already written)" >&2
+    exit 134
+  fi
 }
